@@ -141,9 +141,10 @@ def audit_axioms(prop_id, module, theorems):
     res = {}
     # messages may wrap over several lines
     flat = re.sub(r"\n\s+", " ", out)
-    for m in re.finditer(r"'([^']+)' depends on axioms: \[([^\]]*)\]", flat):
+    # names may end in primes: `'foo'' depends on axioms: [...]`
+    for m in re.finditer(r"'(\S+?)' depends on axioms: \[([^\]]*)\]", flat):
         res[m.group(1)] = [a.strip() for a in m.group(2).split(",") if a.strip()]
-    for m in re.finditer(r"'([^']+)' does not depend on any axioms", flat):
+    for m in re.finditer(r"'(\S+?)' does not depend on any axioms", flat):
         res[m.group(1)] = []
     return ok, res, out
 
